@@ -36,6 +36,7 @@ class TCPServer:
         self.send_lock = asyncio.Lock()
         self.state = state
         self.idle_task = AsyncioSingleTask()
+        self._read_complete = False
 
     def __await__(self) -> Generator[Any, None, None]:
         return self.run().__await__()
@@ -71,6 +72,7 @@ class TCPServer:
                 await self.idle_task.restart(task_group, self._idle_timeout)
                 await self._read_data()
                 # The peer has gone, there is nothing to keep alive
+                self._read_complete = True
                 await self.idle_task.stop()
         except OSError:
             pass
@@ -88,7 +90,7 @@ class TCPServer:
         elif isinstance(event, Closed):
             await self._close()
         elif isinstance(event, Updated):
-            if event.idle:
+            if event.idle and not self._read_complete:
                 await self.idle_task.restart(self._task_group, self._idle_timeout)
             else:
                 await self.idle_task.stop()
